@@ -486,7 +486,8 @@ class Run(object):
         self.desc = None
         self.flags = set()
         self.dropped = 0
-        self.known = known_root_causes()
+        # a committed replay of a known finding carries "sentinel": true so that it keeps reproducing the finding
+        self.known = [] if case.get('sentinel') else known_root_causes()
 
     # -- reporting
     def fail(self, sig, observed=None, expected=None):
